@@ -211,8 +211,16 @@ func main() {
 				continue
 			}
 			// import right after the package clause
-			pe := off(f.Name.End())
-			edits = append(edits, edit{pe, pe, "; import \"github.com/gopcua/opcua/simhook\""})
+			hasHook := false
+			for _, im := range f.Imports {
+				if im.Path.Value == `"github.com/gopcua/opcua/simhook"` {
+					hasHook = true
+				}
+			}
+			if !hasHook {
+				pe := off(f.Name.End())
+				edits = append(edits, edit{pe, pe, "; import \"github.com/gopcua/opcua/simhook\""})
+			}
 			sort.Slice(edits, func(i, j int) bool { return edits[i].start > edits[j].start })
 			outb := append([]byte(nil), src...)
 			for _, ed := range edits {
